@@ -1,3 +1,85 @@
-import RlibModel.Model.Common
-/-! Line-protocol driver for engine `mint` (stub: to be written by the engine's author). -/
-def main : IO Unit := pure ()
+import RlibModel.Model.Mint
+/-! Line-protocol driver for engine `mint` (property C06).
+
+Case lines (all numbers decimal):
+* `new M v`       — `Modular::<M>::new(v)`, `v : i64`
+* `pair M a b`    — `x = new(a)`, `y = new(b)`; `x+y`, `x-y`, `x*y`, `x/y`, `x==y` (and the assigning forms)
+* `un M a`        — `x = new(a)`; `-x`, `x.inv()`, `Display`/`Debug`
+* `pow M a d`     — `new(a).pow(d)`, `d : u64`
+* `io M v`        — `Writable` bytes of `new(v)` and `Readable` value of the token `v`
+
+`S` is `any` outside the property's domain (`2 ≤ M < 2^31`, arguments inside their machine types).
+-/
+open Rlib Rlib.Mint
+
+def showR : Except Panic Int → String := showExcept toString
+
+def inDomM (M : Int) : Bool := 2 ≤ M && M < 2 ^ 31
+
+/-- view of an inverse: the predicate of `inv_spec` -/
+def viewInv (M a : Int) : Except Panic Int → String
+  | .error e => e.toString
+  | .ok r => if isInvOf M a r then "ok" else "bad"
+
+def viewDiv (M x y : Int) : Except Panic Int → String
+  | .error e => e.toString
+  | .ok z => if isQuotOf M x y z then "ok" else "bad"
+
+def handle (line : String) : String :=
+  match tokens line with
+  | [] => badLine line
+  | op :: rest =>
+  match op, parseInts? rest with
+  | "new", some [M, v] =>
+    let dom := inDomM M && i64.fits v
+    answer (showR (new M v)) (if dom then toString (specNew M v) else "any")
+  | "pair", some [M, a, b] =>
+    let dom := inDomM M && i64.fits a && i64.fits b
+    match new M a, new M b with
+    | .ok x, .ok y =>
+      let rAdd := add M x y
+      let rSub := sub M x y
+      let rMul := mul M x y
+      let rDiv := div M x y
+      let e := showBool (eq x y)
+      let m := s!"add={showR rAdd} sub={showR rSub} mul={showR rMul} div={showR rDiv} eq={e}"
+      let v := s!"add={showR rAdd} sub={showR rSub} mul={showR rMul} div={viewDiv M x y rDiv} eq={e}"
+      let s := s!"add={specAdd M a b} sub={specSub M a b} mul={specMul M a b} div=ok eq={showBool (decide (red M a = red M b))}"
+      answer3 m v (if dom then s else "any")
+    | rx, ry =>
+      let m := s!"operand:{showR rx}:{showR ry}"
+      answer3 m m (if dom then "no-panic" else "any")
+  | "un", some [M, a] =>
+    let dom := inDomM M && i64.fits a
+    match new M a with
+    | .ok x =>
+      let rNeg := neg M x
+      let rInv := inv M x
+      let f := render x
+      let m := s!"neg={showR rNeg} inv={showR rInv} fmt={f}/{f}"
+      let v := s!"neg={showR rNeg} inv={viewInv M x rInv} fmt={f}/{f}"
+      let sf := toString (red M a).toNat
+      let s := s!"neg={specNeg M a} inv=ok fmt={sf}/{sf}"
+      answer3 m v (if dom then s else "any")
+    | rx =>
+      let m := s!"operand:{showR rx}"
+      answer3 m m (if dom then "no-panic" else "any")
+  | "pow", some [M, a, d] =>
+    let dom := inDomM M && i64.fits a && u64.fits d
+    match new M a with
+    | .ok x =>
+      answer (showR (pow M x d.toNat)) (if dom then toString (specPow M a d.toNat) else "any")
+    | rx =>
+      let m := s!"operand:{showR rx}"
+      answer3 m m (if dom then "no-panic" else "any")
+  | "io", some [M, v] =>
+    let dom := inDomM M && i64.fits v
+    let w := match new M v with
+      | .ok x => render x
+      | .error e => e.toString
+    let m := s!"w={w} r={showR (readTok M v)}"
+    let sv := toString (red M v).toNat
+    answer m (if dom then s!"w={sv} r={sv}" else "any")
+  | _, _ => badLine line
+
+def main : IO Unit := driverMain handle
